@@ -20,6 +20,7 @@ type Clause struct {
 }
 
 type SiteSpec struct {
+	Ordinal  int    // 0: every match; N: only the N-th matching call (in execution order of the VC generator)
 	Pattern  string // callee pattern, e.g. "kubeClient.Delete" or "client.Client.Delete" or "(*Cluster).MarkForDeletion"
 	Requires []*Clause
 	MinCount int // the pattern must match at least this many call sites (default 1)
@@ -269,18 +270,25 @@ func (cs *Contracts) parseFile(path string, pkg *types.Package) error {
 				return fail(rc, "site needs 'requires'")
 			}
 			pat := strings.TrimSpace(rest[:j])
+			ord := 0
+			if k := strings.LastIndex(pat, " #"); k >= 0 {
+				if n, err := strconv.Atoi(strings.TrimSpace(pat[k+2:])); err == nil {
+					ord = n
+					pat = strings.TrimSpace(pat[:k])
+				}
+			}
 			c, err := mkClause(rc, rest[j+len(" requires "):])
 			if err != nil {
 				return err
 			}
 			var ss *SiteSpec
 			for _, s := range cur.Sites {
-				if s.Pattern == pat {
+				if s.Pattern == pat && s.Ordinal == ord {
 					ss = s
 				}
 			}
 			if ss == nil {
-				ss = &SiteSpec{Pattern: pat, MinCount: 1}
+				ss = &SiteSpec{Pattern: pat, MinCount: 1, Ordinal: ord}
 				cur.Sites = append(cur.Sites, ss)
 			}
 			ss.Requires = append(ss.Requires, c)
